@@ -9,7 +9,7 @@ Confirms a seeded change produced by an independent sub-agent (in /tmp/seed-<PID
 """
 import sys, os, re, json, subprocess, shutil, time
 
-ENV = dict(os.environ, GOFLAGS="-mod=mod", GOPROXY="off", GOSUMDB="off", GOTOOLCHAIN="local")
+ENV = dict(os.environ, GOFLAGS="-mod=mod", GOPROXY="off", GOSUMDB="off", GOTOOLCHAIN="local", VERIF_EVIDENCE_DIR="/verif/.build/evidence-seeded")
 
 
 def sh(cmd, cwd=None, timeout=1800):
